@@ -528,6 +528,9 @@ func judgeC13(c *Ctx, e *ProgEval, count bool) *Fail {
 		f.Kind = "C13 accepted program: " + f.Kind
 		return f
 	}
+	if f := runGate(c, e, "C13"); f != nil {
+		return f
+	}
 	if !e.Built || e.Run == nil {
 		return nil
 	}
